@@ -140,6 +140,28 @@ def construction_ok(prog, fn, bb, s):
 
 
 # ------------------------------------------------------------------------------------------------ R4b
+def param_reaches_output(prog, h, param, depth=0, _memo={}):
+    key = (h.name, param)
+    if key in _memo:
+        return _memo[key]
+    _memo[key] = False
+    res = False
+    t = mir.forward_taint(h, {param})
+    for c in h.calls:
+        if not any(a in t for a in c.arg_locals()):
+            continue
+        if OUTPUT_CALL.search(c.decl) or OUTPUT_CALL.search(c.callee):
+            res = True
+            break
+        h2 = prog.resolve(c.callee, h.crate)
+        if h2 is not None and depth < 3:
+            for ai, a in enumerate(c.arg_locals()):
+                if a in t and param_reaches_output(prog, h2, ai + 1, depth + 1):
+                    res = True
+    _memo[key] = res
+    return res
+
+
 def r4b(prog, rep, config):
     exporters = []
     for f in prog.trait_impl_methods('app::outfmt::model::AcbWriter', 'print_render_table'):
@@ -189,6 +211,12 @@ def r4b(prog, rep, config):
                 for c in g.calls:
                     if (OUTPUT_CALL.search(c.decl) or OUTPUT_CALL.search(c.callee)) and any(a in t for a in c.arg_locals()):
                         flows = True
+                    # ... or is handed to a crate-local helper whose parameter reaches an output call
+                    h = prog.resolve(c.callee, g.crate)
+                    if h is not None and h.name in group:
+                        for ai, a in enumerate(c.arg_locals()):
+                            if a in t and param_reaches_output(prog, h, ai + 1):
+                                flows = True
         missing = [x for x in RT_FIELDS if x not in read]
         k = '%s|reads-all-fields' % f.name
         if missing:
